@@ -388,10 +388,12 @@ static int scan_module(struct context_data *ctx, int ep, int chain)
 		/* ST2.6 speed processing */
 
 		if (f1 == FX_ICE_SPEED && p1) {
-		    if (LSN(p1)) {
+		    if (LSN(p1) && MSN(p1)) {
 		        st26_speed = (MSN(p1) << 8) | LSN(p1);
 		    } else {
-			st26_speed = MSN(p1);
+			/* One nibble only: constant speed, never 0. */
+			int spd = MSN(p1) | LSN(p1);
+			st26_speed = (spd << 8) | spd;
 		    }
 		}
 
